@@ -178,21 +178,32 @@ def search(chk, broken):
         pbc.PreferredUnits.defaults()
     # --- the solver launches with the velocity for the atmosphere's powder temperature
     calc = pbc.Calculator()
-    for k in range(4 if chk.tier == 'quick' else 40):
+    for k in range(8 if chk.tier == 'quick' else 60):
         if chk.over():
             break
         v0, t0, m = rng.uniform(300, 1000), rng.uniform(0, 30), rng.uniform(0.005, 0.03)
         a = pbc.Ammo(dm, U.MPS(v0), U.Celsius(t0), m, True)
         air = rng.uniform(-20, 35)
-        pw = rng.choice([None, rng.uniform(-20, 35)])
-        atmo = pbc.Atmo(0, 29.92, U.Celsius(air), 0, None if pw is None else U.Celsius(pw))
+        pw = rng.choice([None, rng.uniform(-20, 35), 0.0, 0])
+        bare = ''
+        if pw is not None and rng.random() < 0.5:
+            # the powder temperature as a BARE number: that number in the preferred temperature unit — zero included
+            pu = rng.choice([U.Celsius, U.Fahrenheit])
+            pbc.PreferredUnits.temperature = pu
+            num = pw if pu == U.Celsius else rng.choice([0, 0.0, rng.uniform(0, 90)])
+            pw = U.Celsius(pu(num) >> U.Celsius).unit_value if pu != U.Celsius else pw
+            atmo = pbc.Atmo(0, 29.92, U.Celsius(air), 0, num)
+            pbc.PreferredUnits.defaults()
+            bare = f' (powder_t given as the bare number {num!r} under preferred unit {pu.name})'
+        else:
+            atmo = pbc.Atmo(0, 29.92, U.Celsius(air), 0, None if pw is None else U.Celsius(pw))
         shot = pbc.Shot(pbc.Weapon(), a, atmo=atmo)
         row0 = calc.fire(shot, U.Meter(20), U.Meter(10)).trajectory[0]
         exp = a.get_velocity_for_temp(U.Celsius(air if pw is None else pw)) >> U.MPS
         got = row0.velocity >> U.MPS
         evals += 1
         if abs(got - exp) > 1e-9 * exp:
-            chk.failures.append(Failure('solver-launch', f'launch velocity {got} != velocity for powder temperature {exp}',
+            chk.failures.append(Failure('solver-launch', f'launch velocity {got} != velocity for powder temperature {exp}{bare}',
                                         {'op': 'solver-launch', 'v0': v0, 't0': t0, 'modifier': m, 'air': air, 'powder': pw,
                                          'observed': got, 'expected': exp}))
         # the SAME shot object on the SAME calculator after the user changed what the launch velocity depends on
